@@ -180,6 +180,38 @@ func (k *keepCtx) compact(obs *obSet) {
 			obs.fail(key, pos, "the kept tail does not start at index - entries[0].Index: "+describe(nil, low)+
 				" (an off-by-one drops the boundary entry, or keeps one too many, and every later index lookup is shifted)", nil, how)
 		}
+		// the kept entries are the old ones, untouched: nothing replaces an element of the kept slice, and nothing but the
+		// file position (Offset) of a kept entry is assigned
+		keyU := "kept entries are not replaced or altered (except their Offset) in " + fname
+		bad := ""
+		for _, bb := range fn.Blocks {
+			for _, x := range bb.Instrs {
+				s2, ok := x.(*ssa.Store)
+				if !ok {
+					continue
+				}
+				if ia, ok := s2.Addr.(*ssa.IndexAddr); ok && sameSliceVar(ia.X, st.Val) {
+					if z, isZero := constIntOf(ia.Index); isZero && z == 0 && k.freshPlaceholderKeepsLabel(s2.Val, st.Val, index) {
+						continue // the placeholder re-created with the old entry's index and term (its data dropped)
+					}
+					bad = "element " + describe(nil, ia.Index) + " of the kept slice is replaced at " + p.InstrPos(s2) + ": the kept entry (for element 0 the placeholder, whose Term LastTerm() reports when nothing follows it) is no longer the log's entry"
+				}
+				if fa, ok := s2.Addr.(*ssa.FieldAddr); ok {
+					if u, ok := fa.X.(*ssa.UnOp); ok && u.Op == token.MUL {
+						if ia, ok := u.X.(*ssa.IndexAddr); ok && (sameSliceVar(ia.X, st.Val) || k.isEntries(ia.X)) {
+							if f := fieldOf(fa.X.Type(), fa.Field); f != nil && f.Name() != "Offset" {
+								bad = "field " + f.Name() + " of a kept entry is assigned at " + p.InstrPos(s2)
+							}
+						}
+					}
+				}
+			}
+		}
+		if bad != "" {
+			obs.fail(keyU, pos, bad, nil)
+		} else {
+			obs.ok(keyU, pos, "no element of the kept slice is stored to, and only Offset is assigned in a kept entry")
+		}
 		// what is written
 		if len(encodes) == 0 {
 			obs.undecided(keyW, pos, "no encodeLogEntry in "+fname)
@@ -567,4 +599,49 @@ func (k *keepCtx) evalBool(fn *ssa.Function, index *ssa.Parameter, first, n, idx
 		}
 	}
 	return false, "evaluation did not terminate"
+}
+
+
+// freshPlaceholderKeepsLabel: v is a fresh LogEntry whose Index is the index argument (or the Index of the entry it
+// replaces) and whose Term is the Term of the entry it replaces (element 0 of the kept slice, or entries[index-first]).
+func (k *keepCtx) freshPlaceholderKeepsLabel(v ssa.Value, kept ssa.Value, index *ssa.Parameter) bool {
+	ent, ok := resolve(nil, v).(*ssa.Alloc)
+	if !ok || ent.Referrers() == nil {
+		return false
+	}
+	got := map[*types.Var]ssa.Value{}
+	for _, r := range *ent.Referrers() {
+		if fa, ok := r.(*ssa.FieldAddr); ok && fa.Referrers() != nil {
+			for _, rr := range *fa.Referrers() {
+				if s2, ok := rr.(*ssa.Store); ok && s2.Addr == ssa.Value(fa) {
+					got[fieldOf(fa.X.Type(), fa.Field)] = resolve(nil, s2.Val)
+				}
+			}
+		}
+	}
+	ofOld := func(x ssa.Value, fld *types.Var) bool {
+		u, ok := x.(*ssa.UnOp)
+		if !ok || u.Op != token.MUL {
+			return false
+		}
+		fa, ok := u.X.(*ssa.FieldAddr)
+		if !ok || fieldOf(fa.X.Type(), fa.Field) != fld {
+			return false
+		}
+		l, ok := fa.X.(*ssa.UnOp)
+		if !ok || l.Op != token.MUL {
+			return false
+		}
+		ia, ok := l.X.(*ssa.IndexAddr)
+		if !ok {
+			return false
+		}
+		if z, isZero := constIntOf(ia.Index); isZero && z == 0 && sameSliceVar(ia.X, kept) {
+			return true
+		}
+		return k.isEntries(ia.X) && k.isIndexMinusFirst(ia.Index, index)
+	}
+	okIndex := got[k.indexFld] == ssa.Value(index) || (got[k.indexFld] != nil && ofOld(got[k.indexFld], k.indexFld))
+	okTerm := got[k.termFld] != nil && ofOld(got[k.termFld], k.termFld)
+	return okIndex && okTerm
 }
